@@ -38,6 +38,7 @@ FAIL = [
     ("p/boom", "raises", "p", []),
     ("p/evalexc", "raises", "p", []),
     ("p/addn-1/boom", "raises", "p/addn-1", []),
+    ("p/subfail", "substate", "p", ["bad/q"]),
     ("p/nosuch", "unknown", "p", []),
     ("p/addn-x", "unconvertible", "p", []),
     ("p/add2", "missing", "p", []),
@@ -124,6 +125,12 @@ def ob_failing_step(v: int, pvol: bool, pcaching: bool, pvar: int, with_cache: b
         return check(ok and cache.get(pq.encode()) is None, "raised")
     info, exc, get_raises = _errinfo(out)
     ok = bool(out.is_error) and get_raises
+    if kind == "substate":
+        # the command handed back the failed state of a sub-evaluation: the failure must surface (flag, get() raises, nothing cached)
+        # and keep naming a query and a position (the sub-query's own report is accepted)
+        ok = ok and CALLS == ["subfail"] and any(off is not None and qq is not None for off, qq in info)
+        ok = ok and out.metadata.get("status") == "error" and cache.get(pq.encode()) is None
+        return check(ok, "error-state")
     ok = ok and (len(CALLS) == 1 if kind == "raises" else CALLS == [])
     # the LOG entry (which is what later steps and stored metadata carry) names the query and the offset ...
     ok = ok and any(off == fail_offset and qq in names_ok for off, qq in info)
